@@ -9,12 +9,12 @@ From Coq Require Import ZifyBool.
 Definition good (d : list Z) (s : bstate) (p : Z) : Prop :=
   match s with
   | SBytes d' => d' = d
-  | SMmap _ => False
-  | SReader r => r_rem r = skipz p d /\ positive_sched (r_sched r) /\ r_ewl r = false /\
+  | SMmap m => m = mmap_open d
+  | SReader r => r_rem r = skipz p d /\ positive_sched (r_sched r) /\
                  r_fe r = E_EOF /\ r_pos r = p /\ r_size r = len d
-  | SSeeker k => k_data k = d /\ positive_sched (k_sched k) /\ k_ewl k = false /\ k_fe k = E_EOF /\
+  | SSeeker k => k_data k = d /\ positive_sched (k_sched k) /\ k_fe k = E_EOF /\
                  k_size k = len d /\ k_closed k = false
-  | SReaderAt a => a_data a = d /\ a_sched a = [] /\ a_ewl a = false /\ a_fe a = E_EOF /\ a_size a = len d
+  | SReaderAt a => a_data a = d /\ a_sched a = [] /\ a_fe a = E_EOF /\ a_size a = len d
   end.
 
 Lemma healthy_good s d : healthy s d -> good d s 0.
@@ -30,19 +30,19 @@ Lemma good_len d s p : good d s p -> blen any_backend s = len d.
 Proof.
   destruct s as [d'|m|r|k|a]; cbn [good blen any_backend].
   - intros ->. reflexivity.
-  - tauto.
-  - intros (_ & _ & _ & _ & _ & H). exact H.
-  - intros (_ & _ & _ & _ & H & _). exact H.
+  - intros ->. reflexivity.
   - intros (_ & _ & _ & _ & H). exact H.
+  - intros (_ & _ & _ & H & _). exact H.
+  - intros (_ & _ & _ & H). exact H.
 Qed.
 
-(* ---- the read loop over a stream that delivers non-empty chunks ------------------------------------ *)
+(* ---- the read loop over a stream that delivers non-empty chunks; io.EOF after or with the last bytes ------ *)
 Lemma positive_tl s : positive_sched s -> positive_sched (tl s).
 Proof. intros H. destruct s; [exact H|]. inversion H; assumption. Qed.
 
-Lemma read_loop_healthy fuel : forall rem sched need acc,
+Lemma read_loop_healthy ewl fuel : forall rem sched need acc,
   positive_sched sched -> 0 <= need -> (Z.to_nat need < fuel)%nat ->
-  let r := read_loop fuel rem sched false E_EOF need acc in
+  let r := read_loop fuel rem sched ewl E_EOF need acc in
   rd_out r = acc ++ firstz (Z.min need (len rem)) rem /\
   rd_rem r = skipz (Z.min need (len rem)) rem /\
   positive_sched (rd_sched r) /\
@@ -57,8 +57,11 @@ Proof.
     zb. auto. }
   cbn zeta.
   destruct rem as [|x t].
-  { cbn [src_read rd_out rd_rem rd_sched rd_err]. change (E_EOF =? 0) with false. cbn [negb].
-    cbn [rd_out rd_rem rd_sched rd_err]. rewrite len_nil in *. rewrite Z.min_r by lia.
+  { cbn [src_read rd_out rd_rem rd_sched rd_err]. change (E_EOF =? E_EOF) with true.
+    change (len (@nil Z)) with 0 in *. rewrite Z.sub_0_r.
+    replace (need =? 0) with false by (symmetry; apply Z.eqb_neq; lia). cbn [andb].
+    change (E_EOF =? 0) with false. cbn [negb].
+    cbn [rd_out rd_rem rd_sched rd_err]. rewrite Z.min_r by lia.
     rewrite firstz_nonpos, skipz_nonpos by lia. zb. auto. }
   set (rem := x :: t) in *.
   assert (Hl1 : 1 <= len rem) by (unfold rem; rewrite len_cons; pose proof (len_nonneg t); lia).
@@ -67,24 +70,39 @@ Proof.
   { unfold want. destruct sched as [|c s']; [lia|]. inversion Hs; subst. lia. }
   set (m := Z.min want (len rem)).
   assert (Hm : 1 <= m /\ m <= need /\ m <= len rem) by (unfold m; lia).
-  assert (Hsr : src_read rem sched false E_EOF need =
-                mkRd (firstz m rem) (skipz m rem) (tl sched) E_NIL).
-  { unfold rem at 1. cbn [src_read]. fold rem. fold want. fold m.
-    rewrite andb_false_r. reflexivity. }
-  rewrite Hsr. cbn [rd_out rd_rem rd_sched rd_err]. change (E_NIL =? 0) with true. cbn [negb].
+  assert (Hsr : src_read rem sched ewl E_EOF need =
+                mkRd (firstz m rem) (skipz m rem) (tl sched)
+                     (if (len (skipz m rem) =? 0) && ewl then E_EOF else E_NIL)).
+  { unfold rem at 1. cbn [src_read]. fold rem. fold want. fold m. reflexivity. }
+  rewrite Hsr. cbn [rd_out rd_rem rd_sched rd_err].
   rewrite len_firstz_min by lia. rewrite (Z.min_l m (len rem)) by lia.
-  replace (m =? 0) with false by (symmetry; apply Z.eqb_neq; lia).
-  specialize (IH (skipz m rem) (tl sched) (need - m) (acc ++ firstz m rem)
-                 (positive_tl _ Hs) ltac:(lia) ltac:(lia)).
-  cbn zeta in IH. destruct IH as (I1 & I2 & I3 & I4).
-  rewrite len_skipz_max in * by lia.
-  replace (Z.min (need - m) (Z.max 0 (len rem - m))) with (Z.min need (len rem) - m) in * by lia.
-  split; [|split; [|split]].
-  - rewrite I1, <- app_assoc. f_equal.
-    rewrite firstz_skipz_add by lia. f_equal. lia.
-  - rewrite I2. rewrite skipz_skipz by lia. f_equal. lia.
-  - exact I3.
-  - rewrite I4. destruct (Z.leb_spec (need - m) (Z.max 0 (len rem - m))); destruct (Z.leb_spec need (len rem)); try reflexivity; lia.
+  rewrite len_skipz_max by lia.
+  destruct ((Z.max 0 (len rem - m) =? 0) && ewl) eqn:Hlast.
+  - (* io.EOF arrives together with these bytes: they are the last ones *)
+    b2p. assert (Hml : m = len rem) by lia.
+    change (E_EOF =? E_EOF) with true. cbn [andb].
+    destruct (Z.eqb_spec (need - m) 0) as [Hdone|Hmore].
+    + cbn [rd_out rd_rem rd_sched rd_err].
+      replace (Z.min need (len rem)) with m by lia.
+      split; [reflexivity|]. split; [reflexivity|]. split; [apply positive_tl; exact Hs|].
+      replace (need <=? len rem) with true by (symmetry; apply Z.leb_le; lia). reflexivity.
+    + change (E_EOF =? 0) with false. cbn [negb]. cbn [rd_out rd_rem rd_sched rd_err].
+      replace (Z.min need (len rem)) with m by lia.
+      split; [reflexivity|]. split; [reflexivity|]. split; [apply positive_tl; exact Hs|].
+      replace (need <=? len rem) with false by (symmetry; apply Z.leb_gt; lia). reflexivity.
+  - change (E_NIL =? E_EOF) with false. cbn [andb]. change (E_NIL =? 0) with true. cbn [negb].
+    replace (m =? 0) with false by (symmetry; apply Z.eqb_neq; lia).
+    specialize (IH (skipz m rem) (tl sched) (need - m) (acc ++ firstz m rem)
+                   (positive_tl _ Hs) ltac:(lia) ltac:(lia)).
+    cbn zeta in IH. destruct IH as (I1 & I2 & I3 & I4).
+    rewrite len_skipz_max in * by lia.
+    replace (Z.min (need - m) (Z.max 0 (len rem - m))) with (Z.min need (len rem) - m) in * by lia.
+    split; [|split; [|split]].
+    + rewrite I1, <- app_assoc. f_equal.
+      rewrite firstz_skipz_add by lia. f_equal. lia.
+    + rewrite I2. rewrite skipz_skipz by lia. f_equal. lia.
+    + exact I3.
+    + rewrite I4. destruct (Z.leb_spec (need - m) (Z.max 0 (len rem - m))); destruct (Z.leb_spec need (len rem)); try reflexivity; lia.
 Qed.
 
 Lemma loop_fuel_ok n : 0 <= n -> (Z.to_nat n < loop_fuel n)%nat.
@@ -93,6 +111,36 @@ Proof. unfold loop_fuel. lia. Qed.
 (* ---- Bytes(b, n, p) for n > 0 ------------------------------------------------------------------------ *)
 Lemma slice_past {A} (d : list A) p n : 0 <= n -> len d <= p -> slice d p (p + n) = [].
 Proof. intros Hn Hp. rewrite slice_alt. rewrite skipz_all by lia. unfold firstz. apply firstn_nil. Qed.
+
+Lemma mem_bytes_pos d bnil n p : 0 < n -> 0 <= p ->
+  exists r, bytes_bytes d bnil n p = Some (d, r) /\
+    br_data r = slice d p (p + n) /\
+    br_err r = (if p + n <=? len d then E_NIL else E_EOF) /\
+    br_nil r = (len d <=? p).
+Proof.
+  intros Hn Hp. pose proof (len_nonneg d). unfold bytes_bytes. zb. cbn [orb].
+  destruct (Z.leb_spec (len d) p) as [Hpe|Hpe].
+  - eexists. split; [reflexivity|]. cbn [br_data br_nil br_err nil_res].
+    rewrite slice_past by lia. zb. auto.
+  - destruct (Z.ltb_spec (len d - p) n) as [Hs|Hs].
+    + eexists. split; [reflexivity|]. cbn [br_data br_nil br_err]. zb.
+      rewrite (slice_clip d p (len d - p) n) by lia. auto.
+    + eexists. split; [reflexivity|]. cbn [br_data br_nil br_err]. zb. auto.
+Qed.
+
+(* binaryReaderMmap.Bytes on an open map is binaryReaderBytes.Bytes *)
+Lemma mmap_bytes_eq d size bnil n off :
+  mmap_bytes (mkM (Some d) size) bnil n off =
+  match bytes_bytes d bnil n off with
+  | Some (_, r) => Some (mkM (Some d) size, r)
+  | None => None
+  end.
+Proof.
+  unfold mmap_bytes, bytes_bytes. cbn [mdata].
+  destruct ((off <? 0) || (n <? 0)); [reflexivity|].
+  destruct (n =? 0); [reflexivity|].
+  destruct (len d <=? off); reflexivity.
+Qed.
 
 Lemma good_bytes d s p bnil n :
   good d s p -> 0 < n -> 0 <= p ->
@@ -107,24 +155,25 @@ Proof.
   intros Hg Hn Hp. pose proof (len_nonneg d) as Hl.
   destruct s as [d'|m|r|k|a]; cbn [good] in Hg.
   - (* bytes *)
-    subst d'. cbn [bbytes any_backend]. unfold bytes_bytes. zb. cbn [orb].
-    destruct (Z.leb_spec (len d) p) as [Hpe|Hpe].
-    + eexists _, _. split; [reflexivity|]. cbn [br_data br_nil br_err nil_res lift].
-      rewrite slice_past by lia. zb. cbn [good random_access]. repeat split; auto; lia.
-    + destruct (Z.ltb_spec (len d - p) n) as [Hs|Hs].
-      * eexists _, _. split; [reflexivity|]. cbn [br_data br_nil br_err].
-        zb. cbn [good random_access].
-        rewrite (slice_clip d p (len d - p) n) by lia.
-        repeat split; auto; try lia; discriminate.
-      * eexists _, _. split; [reflexivity|]. cbn [br_data br_nil br_err].
-        zb. cbn [good random_access]. repeat split; auto; discriminate.
-  - tauto.
+    subst d'. cbn [bbytes any_backend].
+    destruct (mem_bytes_pos d bnil n p Hn Hp) as (r & E & D & Er & Nl). rewrite E. cbn [lift].
+    exists (SBytes d), r. split; [reflexivity|]. split; [exact D|]. split; [exact Er|].
+    split; [intros; rewrite Nl; apply Z.leb_gt; lia|].
+    split; [intros Ht; rewrite Nl in Ht; rewrite D; apply slice_past; [lia|apply Z.leb_le; exact Ht]|].
+    split; reflexivity.
+  - (* mmap *)
+    subst m. cbn [bbytes any_backend]. unfold mmap_open. rewrite mmap_bytes_eq.
+    destruct (mem_bytes_pos d bnil n p Hn Hp) as (r & E & D & Er & Nl). rewrite E. cbn [lift].
+    exists (SMmap (mkM (Some d) (len d))), r. split; [reflexivity|]. split; [exact D|]. split; [exact Er|].
+    split; [intros; rewrite Nl; apply Z.leb_gt; lia|].
+    split; [intros Ht; rewrite Nl in Ht; rewrite D; apply slice_past; [lia|apply Z.leb_le; exact Ht]|].
+    split; reflexivity.
   - (* io.Reader *)
-    destruct Hg as (Hrem & Hsch & Hewl & Hfe & Hpos & Hsize).
+    destruct Hg as (Hrem & Hsch & Hfe & Hpos & Hsize).
     cbn [bbytes any_backend]. unfold reader_bytes. rewrite Hpos. zb. cbn [negb].
     replace (bnil && false) with false by (destruct bnil; reflexivity).
-    rewrite Hewl, Hfe, Hrem.
-    pose proof (read_loop_healthy (loop_fuel n) (skipz p d) (r_sched r) n [] Hsch ltac:(lia)
+    rewrite Hfe, Hrem.
+    pose proof (read_loop_healthy (r_ewl r) (loop_fuel n) (skipz p d) (r_sched r) n [] Hsch ltac:(lia)
                   (loop_fuel_ok n ltac:(lia))) as HL.
     cbn zeta in HL. destruct HL as (L1 & L2 & L3 & L4).
     cbn [lift]. eexists _, _. split; [reflexivity|]. cbn [br_data br_nil br_err].
@@ -142,11 +191,11 @@ Proof.
     + f_equal. lia.
     + rewrite !skipz_all by lia. reflexivity.
   - (* io.ReadSeeker / file *)
-    destruct Hg as (Hdata & Hsch & Hewl & Hfe & Hsize & Hcl).
+    destruct Hg as (Hdata & Hsch & Hfe & Hsize & Hcl).
     cbn [bbytes any_backend]. unfold seeker_bytes. zb.
     replace (bnil && false) with false by (destruct bnil; reflexivity).
-    rewrite Hcl. cbn [orb]. rewrite Hewl, Hfe, Hdata.
-    pose proof (read_loop_healthy (loop_fuel n) (skipz p d) (k_sched k) n [] Hsch ltac:(lia)
+    rewrite Hcl. cbn [orb]. rewrite Hfe, Hdata.
+    pose proof (read_loop_healthy (k_ewl k) (loop_fuel n) (skipz p d) (k_sched k) n [] Hsch ltac:(lia)
                   (loop_fuel_ok n ltac:(lia))) as HL.
     cbn zeta in HL. destruct HL as (L1 & L2 & L3 & L4).
     cbn [lift]. eexists _, _. split; [reflexivity|]. cbn [br_data br_nil br_err].
@@ -157,53 +206,55 @@ Proof.
     { destruct (Z.leb_spec n (Z.max 0 (len d - p))); destruct (Z.leb_spec (p + n) (len d)); try reflexivity; lia. }
     split; [reflexivity|]. split; [discriminate|]. split; [|reflexivity].
     cbn [good k_data k_sched k_ewl k_fe k_size k_closed]. repeat split; auto.
-  - (* io.ReaderAt *)
-    destruct Hg as (Hdata & Hsch & Hewl & Hfe & Hsize).
+  - (* io.ReaderAt: io.EOF for a read that ends exactly at the end is ignored *)
+    destruct Hg as (Hdata & Hsch & Hfe & Hsize).
     cbn [bbytes any_backend]. unfold readerat_bytes, src_readat. zb.
     replace (bnil && false) with false by (destruct bnil; reflexivity).
-    rewrite Hdata, Hsch, Hewl, Hfe.
+    rewrite Hdata, Hsch, Hfe.
     destruct (Z.leb_spec (len d) p) as [Hpe|Hpe].
-    + change (E_EOF =? 0) with false. cbn [negb lift tl].
+    + change (E_EOF =? 0) with false. change (E_EOF =? E_EOF) with true.
+      change (len (@nil Z)) with 0.
+      replace (0 =? n) with false by (symmetry; apply Z.eqb_neq; lia). cbn [negb orb andb lift tl].
       eexists _, _. split; [reflexivity|]. cbn [br_data br_nil br_err].
       rewrite slice_past by lia. zb.
       cbn [good random_access a_data a_sched a_ewl a_fe a_size]. repeat split; auto; try lia; discriminate.
-    + cbn [andb tl]. rewrite Z.ltb_irrefl.
+    + cbn [tl]. rewrite Z.ltb_irrefl.
       destruct (Z.ltb_spec (Z.min n (len d - p)) n) as [Hs|Hs].
-      * change (E_EOF =? 0) with false. cbn [negb lift].
-        eexists _, _. split; [reflexivity|]. cbn [br_data br_nil br_err].
-        rewrite (slice_clip d p (Z.min n (len d - p)) n) by lia. zb.
+      * (* short: io.EOF is reported *)
+        change (E_EOF =? 0) with false. change (E_EOF =? E_EOF) with true.
+        rewrite (slice_clip d p (Z.min n (len d - p)) n) by lia.
+        rewrite len_slice_gen by lia.
+        replace (Z.max 0 (Z.min n (len d - p)) =? n) with false by (symmetry; apply Z.eqb_neq; lia).
+        cbn [negb orb andb lift].
+        eexists _, _. split; [reflexivity|]. cbn [br_data br_nil br_err]. zb.
         cbn [good random_access a_data a_sched a_ewl a_fe a_size]. repeat split; auto; try lia; discriminate.
-      * change (E_NIL =? 0) with true. cbn [negb].
+      * (* complete: with or without io.EOF the result is b, nil *)
         rewrite Z.min_l by lia. rewrite len_slice_gen by lia.
         replace (Z.max 0 (Z.min n (len d - p)) =? n) with true by (symmetry; apply Z.eqb_eq; lia).
-        cbn [negb lift].
-        eexists _, _. split; [reflexivity|]. cbn [br_data br_nil br_err]. zb.
+        assert (Hres : forall e, (e = E_EOF \/ e = E_NIL) ->
+                  (if negb (e =? 0) && (negb (e =? E_EOF) || negb true)
+                   then Some (mkA (a_data a) [] (a_ewl a) (a_fe a) (a_size a), mkBR (slice d p (p + n)) false e)
+                   else if negb true then Some (mkA (a_data a) [] (a_ewl a) (a_fe a) (a_size a), mkBR (slice d p (p + n)) false E_SHORT)
+                   else Some (mkA (a_data a) [] (a_ewl a) (a_fe a) (a_size a), mkBR (slice d p (p + n)) false E_NIL)) =
+                  Some (mkA (a_data a) [] (a_ewl a) (a_fe a) (a_size a), mkBR (slice d p (p + n)) false E_NIL)).
+        { intros e [->| ->]; reflexivity. }
+        match goal with |- context [if negb (?e =? 0) && _ then _ else _] =>
+          assert (He : e = E_EOF \/ e = E_NIL) by (destruct (a_ewl a && (p + n =? len d)); auto) end.
+        match goal with |- context [lift SReaderAt ?x] => replace x with
+          (Some (mkA (a_data a) [] (a_ewl a) (a_fe a) (a_size a), mkBR (slice d p (p + n)) false E_NIL)) end.
+        2:{ symmetry. rewrite Hdata, Hfe in *. apply Hres. exact He. }
+        cbn [lift]. eexists _, _. split; [reflexivity|]. cbn [br_data br_nil br_err]. zb.
         cbn [good random_access a_data a_sched a_ewl a_fe a_size]. repeat split; auto; discriminate.
 Qed.
 
-(* ---- Bytes(b, 0, p): nil, nil on these four backends ----------------------------------------------- *)
+(* ---- Bytes(b, 0, p): nil, nil on every backend ---------------------------------------------------------- *)
 Lemma good_bytes_zero d s p bnil :
   good d s p -> 0 <= p -> bbytes any_backend s bnil 0 p = Some (s, nil_res E_NIL).
 Proof.
   intros Hg Hp. destruct s as [d'|m|r|k|a]; cbn [good] in Hg; cbn [bbytes any_backend].
   - unfold bytes_bytes. zb. reflexivity.
-  - tauto.
-  - destruct Hg as (_ & _ & _ & _ & Hpos & _). unfold reader_bytes. rewrite Hpos. zb. reflexivity.
+  - subst m. unfold mmap_bytes, mmap_open. cbn [mdata]. zb. reflexivity.
+  - destruct Hg as (_ & _ & _ & Hpos & _). unfold reader_bytes. rewrite Hpos. zb. reflexivity.
   - unfold seeker_bytes. reflexivity.
   - unfold readerat_bytes. reflexivity.
-Qed.
-
-(* ---- binaryReaderMmap.Bytes is binaryReaderBytes.Bytes except for n = 0 ------------------------------ *)
-Lemma mmap_bytes_eq d size bnil n off :
-  n <> 0 ->
-  mmap_bytes (mkM (Some d) size) bnil n off =
-  match bytes_bytes d bnil n off with
-  | Some (_, r) => Some (mkM (Some d) size, r)
-  | None => None
-  end.
-Proof.
-  intros Hn. unfold mmap_bytes, bytes_bytes. cbn [mdata].
-  destruct ((off <? 0) || (n <? 0)); [reflexivity|].
-  replace (n =? 0) with false by (symmetry; apply Z.eqb_neq; exact Hn).
-  destruct (len d <=? off); reflexivity.
 Qed.
